@@ -67,7 +67,12 @@ def worker(task):
                 raises = {}
             out['info'] = dict(info, gen_s=time.time() - t0, alias_sites=[], func_kind='lemma')
         else:
-            obs, info = fv.verify(fq, recv)
+            split = None
+            if recv and '@@' in recv:
+                recv, k = recv.split('@@')
+                recv = recv or None
+                split = int(k)
+            obs, info = fv.verify(fq, recv, split)
             fi = _REPO.funcs[fq]
             c = C.CONTRACTS[fq]
             out['info'] = dict(info, gen_s=time.time() - t0, alias_sites=[list(a) for a in fv.ex.alias_sites],
@@ -105,7 +110,12 @@ def select_tasks(prop, C):
         if prop is not None and prop not in props_of(c):
             continue
         for recv in (c.receivers or [None]):
-            tasks.append((fq, recv))
+            if getattr(c, 'split', None):
+                # exhaustive case split of the precondition (one verification run per alternative)
+                for k in range(len(c.split)):
+                    tasks.append((fq, f'{recv or ""}@@{k}'))
+            else:
+                tasks.append((fq, recv))
     for name, lm in C.LEMMAS.items():
         if prop is None or prop in lm.props:
             tasks.append(('lemma:' + name, None))
@@ -149,7 +159,11 @@ def main(argv):
                 tasks.append((fq, None))
                 continue
             c = C.CONTRACTS[fq]
-            tasks += [(fq, r) for r in (c.receivers or [None])]
+            for r in (c.receivers or [None]):
+                if getattr(c, 'split', None):
+                    tasks += [(fq, f'{r or ""}@@{k}') for k in range(len(c.split))]
+                else:
+                    tasks.append((fq, r))
         outs = run_tasks(tasks, TIMEOUT_MS[args.tier], args.jobs)
         for o in outs:
             if o['error']:
